@@ -131,6 +131,13 @@ CLAIMED = {
             "failure as a solver choice, window violations, HPACK failure as a solver choice)",
             "Exactly one GOAWAY, code == exception code == category code, last-stream-id == "
             "highest peer-opened id and never changing after the first GOAWAY.", "7/C18"),
+    'C11': ("symbolic execution of received SETTINGS (every single id / pair of ids, symbolic "
+            "values) and of update_settings / ACK programs (two frames in flight, optionally "
+            "before the initial ACK) against a FIFO-of-frames oracle; enforcement points read "
+            "back after every ACK",
+            "All values 0..2^32-1; exactly one RemoteSettingsChanged + one ACK per received "
+            "frame, in order; k-th ACK applies and reports exactly the k-th frame; a raising "
+            "update_settings leaves nothing pending.", "7/C11"),
 }
 
 NOT_YET = {}
